@@ -31,7 +31,7 @@ ASSUMPTIONS = [
     "Measurement-value predicates are boolean-valued expressions built with the documented operators (no Python and/or/not).",
     "No postselection inside conditionals' measurements (covered by the MCM properties).",
 ]
-BUDGET = {"quick": {"examples": 2000}, "thorough": {"examples": 100000, "shards": 16}}
+BUDGET = {"quick": {"examples": 1500}, "thorough": {"examples": 100000, "shards": 16}}
 SHRINK_LISTS = ("body", "steps", "true", "false", "meas", "init", "upd", "args")
 
 G1P = ["RX", "RY", "RZ", "PhaseShift"]
@@ -235,7 +235,14 @@ def _norm(carry, res):
         return None if res is None else ("unexpected", repr(res))
     if carry == 1:
         return res
+    if not isinstance(res, (tuple, list)) or len(res) != carry:
+        return ("unexpected", repr(res))
     return tuple(res)
+
+
+def _arity(what, got, want):
+    if len(got) != want:
+        raise Viol("callback-arity", f"{what} was called with {len(got)} carried values, the loop carries {want}")
 
 
 # ---------------------------------------------------------------------------------------------
@@ -344,6 +351,7 @@ def qp_block(qp, stmts, scope, nw, tr):  # noqa: C901
                 deco = qp.for_loop(start, stop, step)
 
             def body(i, *carried, s=s, scope=scope, carry=carry):
+                _arity("for_loop body", carried, carry)
                 inner = scope + [i] + list(carried)
                 qp_block(qp, s["body"], inner, nw, tr)
                 new = [ev(e, inner) for e in s["upd"]]
@@ -356,10 +364,12 @@ def qp_block(qp, stmts, scope, nw, tr):  # noqa: C901
             init = [limit - s["d"]] + [ev(e, scope) for e in s["init"]]
             carry = len(init)
 
-            def cond_fn(*carried, s=s, scope=scope, limit=limit):
+            def cond_fn(*carried, s=s, scope=scope, limit=limit, carry=carry):
+                _arity("while_loop cond_fn", carried, carry)
                 return carried[0] < limit and not (s["stop_if"] is not None and evp(s["stop_if"], scope + list(carried)))
 
             def wbody(*carried, s=s, scope=scope, carry=carry):
+                _arity("while_loop body", carried, carry)
                 inner = scope + list(carried)
                 qp_block(qp, s["body"], inner, nw, tr)
                 new = [carried[0] + s["inc"]] + [ev(e, inner) for e in s["upd"]]
@@ -386,7 +396,8 @@ def qp_block(qp, stmts, scope, nw, tr):  # noqa: C901
                 continue
 
             def mk(body, ret, scope=scope):
-                def fn(*a):
+                def fn(*a, nargs=len(args)):
+                    _arity("cond branch", a, nargs)
                     inner = scope + list(a)
                     qp_block(qp, body, inner, nw, tr)
                     return None if ret is None else ev(ret, inner)
